@@ -74,11 +74,21 @@ def dfxp_roundtrip_l2(cap_l: int, node_a: int, node_b: int) -> str:
     return _roundtrip(2, cap_l, node_a, node_b)
 
 
-def _roundtrip(lang_l, cap_l, node_a, node_b):
+def dfxp_roundtrip_same_box(cap_l: int, node_a: int, node_b: int) -> str:
+    """
+    pre: 0 <= cap_l < 3 and 0 <= node_a < 3 and 0 <= node_b < 3
+    post: _ == ""
+    """
+    # one box, the alignment absent / spelled out as the DFXP default / different: layouts that are unequal
+    # although (the first two) serialise to the same region attributes
+    return _roundtrip(0, cap_l, node_a, node_b, pools=((0, 0, 0), (1, 6, 7), (0, 1, 6), (0, 6, 7)))
+
+
+def _roundtrip(lang_l, cap_l, node_a, node_b, pools=((0, 1, 5), (0, 3, 2), (0, 1, 2), (0, 5, 3))):
     set_l = False  # the statement speaks of layouts at language, caption or node level
     # layout kinds: 0 none, 1 A, 2 B (with padding and alignment), 3 equal-valued copy of A, 5 alignment only
-    kset, klang, kcap = (2 if set_l else 0), _l3(lang_l, 0, 1, 5), _l3(cap_l, 0, 3, 2)
-    ka, kb = _l3(node_a, 0, 1, 2), _l3(node_b, 0, 5, 3)
+    kset, klang, kcap = (2 if set_l else 0), _l3(lang_l, *pools[0]), _l3(cap_l, *pools[1])
+    ka, kb = _l3(node_a, *pools[2]), _l3(node_b, *pools[3])
     cs = build_set(set_l=kset, lang_l=klang, cap_l=kcap, node_l=ka, node_l2=kb, italics=3)
     old = db.BeautifulSoup
     holder = []
@@ -112,7 +122,7 @@ def _roundtrip(lang_l, cap_l, node_a, node_b):
 
 
 # --- WebVTT cue settings ------------------------------------------------------------------------------------
-XS = (Fraction(10), Fraction(25, 2), Fraction(3333, 100))
+XS = (Fraction(0), Fraction(10), Fraction(25, 2), Fraction(3333, 100))
 PADS = (None, Fraction(5, 4), Fraction(5))
 WS = (None, Fraction(50), Fraction(6667, 100))
 
@@ -125,6 +135,12 @@ def _pick3(i, t):
     return t[2]
 
 
+def _pick4(i, t):
+    if i == 3:
+        return t[3]
+    return _pick3(i, t)
+
+
 def _fmt(fr):
     s = "%.2f" % float(fr)
     s = s.rstrip("0").rstrip(".")
@@ -133,13 +149,13 @@ def _fmt(fr):
 
 def vtt_settings(ix: int, iw: int, ips: int, ipe: int, al: int) -> str:
     """
-    pre: 0 <= ix < 3 and 0 <= iw < 3 and 0 <= ips < 3 and 0 <= ipe < 3 and 0 <= al < 4
+    pre: 0 <= ix < 4 and 0 <= iw < 3 and 0 <= ips < 3 and 0 <= ipe < 3 and 0 <= al < 4
     post: _ == ""
     """
-    iy = (ix + 1) % 3
+    iy = (ix + 1) % 4
     ipb = (ips + 2) % 3
     P = UnitEnum.PERCENT
-    x, y, w = _pick3(ix, XS), _pick3(iy, XS), _pick3(iw, WS)
+    x, y, w = _pick4(ix, XS), _pick4(iy, XS), _pick3(iw, WS)
     ps, pe, pb = _pick3(ips, PADS), _pick3(ipe, PADS), _pick3(ipb, PADS)
     has_pad = ps is not None or pe is not None or pb is not None
 
@@ -162,6 +178,41 @@ def vtt_settings(ix: int, iw: int, ips: int, ipe: int, al: int) -> str:
     if w is not None:
         want += " size:" + _fmt(w - (ps or 0) - (pe or 0))
     return "" if got == want else "cue settings"
+
+
+def vtt_shared_layout(level: int, ips: int, ipb: int, three: bool) -> str:
+    """
+    pre: 0 <= level < 3 and 0 <= ips < 3 and 0 <= ipb < 3
+    post: _ == ""
+    """
+    # several cues resolving to ONE Layout object (language level, the same instance on every caption, or on
+    # every node): each cue must carry the settings of that layout, whatever was written before it
+    P = UnitEnum.PERCENT
+    ps, pb = _pick3(ips, PADS), _pick3(ipb, PADS)
+
+    def sz(fr):
+        return Size(float(fr), P)
+    pad = Padding(before=sz(pb) if pb is not None else None, start=sz(ps) if ps is not None else None,
+                  end=sz(Fraction(5, 2))) if (ps is not None or pb is not None) else None
+    shared = Layout(origin=Point(sz(10), sz(20)), extent=Stretch(sz(60), sz(20)), padding=pad)
+    caps = []
+    for i in range(3 if three else 2):
+        node_l = shared if level == 2 else None
+        caps.append(Caption(i * 1000000, i * 1000000 + 500000, [CaptionNode.create_text("t%d" % i, layout_info=node_l)],
+                            layout_info=shared if level == 1 else None))
+    cs = CaptionSet({"en": CaptionList(caps, layout_info=shared if level == 0 else None)})
+    out = WebVTTWriter(fit_to_screen=False).write(cs)
+    want = " align:start position:" + _fmt(10 + (ps or 0)) + " line:" + _fmt(20 + (pb or 0)) + \
+        " size:" + _fmt(60 - (ps or 0) - (Fraction(5, 2) if pad is not None else 0))
+    timings = [ln for ln in out.split("\n") if "-->" in ln]
+    if len(timings) != len(caps):
+        return "number of cues"
+    for ln in timings:
+        if ln[len("00:00.000 --> 00:00.500"):] != want:
+            return "cue settings of a cue sharing its layout with an earlier cue"
+    if shared.origin.x.value != 10.0 or shared.extent.horizontal.value != 60.0:
+        return "the caption set's layout was modified by writing"
+    return ""
 
 
 def vtt_split_and_passthrough(la: int, lb: int, lc: int) -> str:
